@@ -1,0 +1,11 @@
+//go:build !verif
+// +build !verif
+
+package caching
+
+import "time"
+
+func verifPoint(name string, k Key)            {}
+func verifPointS(name string, s string)        {}
+func verifNow(t int64) int64                   { return t }
+func verifSleep(d time.Duration) time.Duration { return d }
